@@ -95,15 +95,17 @@ def run(ctx, replay):
     rc = rand_config(c, ctx.seed)
     if replay:
         return corelib.replay_core(ctx, replay, rc, OBS)
-    corelib.run_core(ctx, c, invariants=["MergeOK", "TreeOK"], properties=["Isolation"], obs=OBS,
+    jobs = []          # the graphs are independent: they run side by side
+    jobs.append(lambda: corelib.run_core(ctx, c, invariants=["MergeOK", "TreeOK"], properties=["Isolation"], obs=OBS,
                      rand_count=30 if ctx.quick() else 1200, rand_depth=30 if ctx.quick() else 45,
-                     rand_loggers=5, rand_cfg=rc, key_fn=explain, tag="merge")
-    corelib.run_core(ctx, config_chain(ctx.quick()), invariants=["MergeOK", "TreeOK", "FlagsOK"], properties=[], obs=OBS,
-                     rand_count=0, rand_depth=0, rand_loggers=3, key_fn=explain, tag="chain")
-    corelib.run_core(ctx, config_big(ctx.quick()), invariants=["MergeOK"], properties=[], obs=OBS,
-                     rand_count=0, rand_depth=0, rand_loggers=3, key_fn=explain, tag="big")
-    corelib.run_core(ctx, config_nilctx(ctx.quick()), invariants=["MergeOK"], properties=[], obs=OBS,
-                     rand_count=0, rand_depth=0, rand_loggers=1, key_fn=explain, tag="nilctx")
+                     rand_loggers=5, rand_cfg=rc, key_fn=explain, tag="merge"))
+    jobs.append(lambda: corelib.run_core(ctx, config_chain(ctx.quick()), invariants=["MergeOK", "TreeOK", "FlagsOK"], properties=[], obs=OBS,
+                     rand_count=0, rand_depth=0, rand_loggers=3, key_fn=explain, tag="chain"))
+    jobs.append(lambda: corelib.run_core(ctx, config_big(ctx.quick()), invariants=["MergeOK"], properties=[], obs=OBS,
+                     rand_count=0, rand_depth=0, rand_loggers=3, key_fn=explain, tag="big"))
+    jobs.append(lambda: corelib.run_core(ctx, config_nilctx(ctx.quick()), invariants=["MergeOK"], properties=[], obs=OBS,
+                     rand_count=0, rand_depth=0, rand_loggers=1, key_fn=explain, tag="nilctx"))
+    corelib.run_jobs(jobs)
     ctx.assumptions += ["attribute keys are aNNN names whose byte order is the numeric order of the model's key ids; values are integers",
                         "the printed attributes are projected from the record by an order-preserving JSON token walk / a dotted-key scan "
                         "of the logfmt and colored text",
